@@ -153,6 +153,18 @@ class Report:
         }
         with open(os.path.join(edir, '%s.json' % self.pid), 'w') as f:
             json.dump(ev, f, indent=1, default=str)
+        code = 1 if refuted else (2 if inconc else 0)
+        try:
+            return self._print_summary(per_rule, disch, refuted, inconc, known, replays)
+        except BrokenPipeError:
+            # the reader of our output went away (e.g. `| head`): the verdict is the exit status
+            try:
+                sys.stdout = open(os.devnull, 'w')
+            except OSError:
+                pass
+            return code
+
+    def _print_summary(self, per_rule, disch, refuted, inconc, known, replays):
         print('%s %s: %d obligations, %d discharged, %d refuted, %d inconclusive, %d known (%.2fs)' % (
             self.pid, self.tier, len(self.obs), len(disch), len(refuted), len(inconc), len(known), time.time() - self.t0))
         for r, d in sorted(per_rule.items()):
